@@ -11,13 +11,13 @@ GEN_FILES = ["Gen_types.v", "Gen_lint.v"]
 RULE = ("lint-clean circuits of <= 10 nodes built from a random DAG (1..3 inputs, constants 0/1, all eight gate types, fan-in 1..4) "
         "plus 1..5 extra edges towards earlier gates (nested / overlapping cycles, several strongly connected components, cycles through "
         "buf/not by re-driving them), inputs and cycle nodes marked as outputs, node insertion order shuffled (it steers the greedy feedback "
-        "heuristic); hub-and-petal circuits (one node sourcing several feedback edges / several feedback nodes sharing a load); about 15% acyclic arguments (C05 clause), name-stress variants (aux_in_*, c0_*, c1_* names), and a few arguments outside "
+        "heuristic); hub-and-petal circuits (one node sourcing several feedback edges / several feedback nodes sharing a load); dense overlapping loops (5..8 gates, >= 2 edges per node, three insertion orders of each graph); about 15% acyclic arguments (C05 clause), name-stress variants (aux_in_*, c0_*, c1_* names), and a few arguments outside "
         "the domain (self loop, blackbox, x constant); non-trivial = at least one gate and one output; distinct = canonical input hash")
 EXPLANATION = ("model through the API model with the feedback set read back from the result; semantic theorem on the closed form of the result; "
                "closed form = model = implementation decided per case; oracle enumerates all stable states")
 SHARD = 20
 HASHSEEDS = {"quick": [0, 1], "thorough": [0, 1, 2]}
-MAX_RESULT_NODES = 80
+MAX_RESULT_NODES = 85
 
 
 def gen_cyclic(rng, acyclic=False):
@@ -69,6 +69,29 @@ def gen_petals(rng):
     return lib.shuffle_nodes(rng, {"name": "top", "nodes": nodes, "bbs": []})
 
 
+def gen_dense(rng, kmax=8):
+    """dense overlapping loops: 5..8 gates, every gate reads 2..3 other gates (>= 2 edges per node), 1..2 inputs; returned in three
+    insertion orders of the same graph (the greedy feedback heuristic breaks ties by insertion order)"""
+    k = rng.randint(5, kmax)
+    gates = [f"g{i}" for i in range(k)]
+    ins = ["a", "b"][:rng.randint(1, 2)]
+    nodes = [[i, "input", False, []] for i in ins]
+    for g in gates:
+        others = [x for x in gates if x != g]
+        t = rng.choice(lib.MULTI) if rng.random() < 0.85 else rng.choice(lib.SINGLE)
+        if t in lib.SINGLE:
+            fi = [rng.choice(others)]
+        else:
+            fi = rng.sample(others, rng.choice([2, 2, 3]))
+            if rng.random() < 0.3:
+                fi.append(rng.choice(ins))
+        nodes.append([g, t, rng.random() < 0.3, sorted(set(fi))])
+    if not any(n[2] for n in nodes):
+        nodes[-1][2] = True
+    d = {"name": "top", "nodes": nodes, "bbs": []}
+    return [lib.shuffle_nodes(rng, d) for _ in range(3)]
+
+
 def stress_names(rng, d):
     """rename some nodes to names the construction generates itself"""
     d = json.loads(json.dumps(d))
@@ -87,7 +110,7 @@ def stress_names(rng, d):
 
 
 def generate(rng, tier):
-    n = 170 if tier == "quick" else 600
+    n = 150 if tier == "quick" else 600
     n = max(20, int(n * float(os.environ.get("VERIF_SCALE", "1"))))      # <1 only for mutant trials on a loaded machine
     out = []
     for i in range(n):
@@ -111,6 +134,8 @@ def generate(rng, tier):
             kind = "x-const"
         out.append({"fn": "acyclic_unroll", "circuit": d, "kind": kind})
     out += [{"fn": "acyclic_unroll", "circuit": gen_petals(rng), "kind": "petals"} for _ in range(max(12, n // 10))]
+    for _ in range(4 if tier == "quick" else n // 12):
+        out += [{"fn": "acyclic_unroll", "circuit": d, "kind": "dense-loops"} for d in gen_dense(rng, 7 if tier == "quick" else 8)]
     return out
 
 
